@@ -146,6 +146,11 @@ func runCheck(prog *Program, verifDir string, propID string, tier string, seed i
 		}
 		return false
 	}
+	for i := range kfs {
+		if kfs[i].Property == propID && kfs[i].Status != "fixed" {
+			expectedToFail[kfs[i].Obligation] = true
+		}
+	}
 	dischargeAll(results, timeout, workdir, par, inProp)
 
 	// vacuity canaries: `false` at the entry of each function (after requires) must NOT be provable
